@@ -57,9 +57,10 @@ INLINE_CODE_SPAN = AtomicPattern(
 )
 
 # Markdown links: [text](url) or [text][ref] or [text]
+# (the text may hold one level of brackets, as in `[see [1] for details](url)`)
 MARKDOWN_LINK = AtomicPattern(
     name="markdown_link",
-    pattern=r"\[[^\]]*\](?:\([^)]*\)|\[[^\]]*\])?",
+    pattern=r"\[(?:[^\[\]]|\[[^\[\]]*\])*\](?:\([^)]*\)|\[[^\]]*\])?",
     open_delim="",
     close_delim="",
     open_re="",
